@@ -497,7 +497,7 @@ func TransformJSONProtoToDSL(model *openfgav1.AuthorizationModel, opts ...Transf
 	}
 
 	typeDefinitions := []string{}
-	typeDefs := model.GetTypeDefinitions()
+	typeDefs := slices.Clone(model.GetTypeDefinitions())
 	isModularModel := false
 
 	for index := 0; index < len(typeDefs); index++ {
